@@ -5,12 +5,22 @@ RULE = ("MC: HsManager.tla exhaustively (retries 2, queue bound 2, timer entries
         "structural invariants. T: seeded schedules on 4 complete nodes with virtual time (try interval = 1 tick): retransmission "
         "times, give-up after `retries` attempts (pending entry and index gone), queue growth, release of queued packets in order "
         "on completion, hand-over of the queue after a wrong responder; every step validated by TLC incl. the back-off invariant "
-        "C32_NoEarlyRetry; distinct = traces")
+        "C32_NoEarlyRetry; distinct = traces. Burst: HsManager.tla's TunSendBurst (a tun read that is a TSO/USO superpacket) -- MC "
+        "with SpecBurst, and vectors (Vec_HsBurst.tla, MaxQueue = 100) run on the real consumeInsidePacket / packet store / "
+        "continueHandshake release")
 ASSUMPTIONS = _hs.ASSUME_COMMON + [
     "retries=4, try_interval=100ms in the recorded runs; the outbound firewall allows everything (the 'only if the firewall allows it' "
     "clause is decided by the firewall checks C16/C17 on the same Drop call)",
     "'linearly growing delay' is read as: attempt k+1 of a pending handshake happens no earlier than k intervals after attempt k",
     "the queue bound of 100 is exercised by a dedicated long run of inside packets in profile 2",
+    "superpackets (burst stage, object level): one Interface + HandshakeManager + Firewall per vector; the fill levels are "
+    "{0, 1, 100-k-1 .. 100} for burst sizes k in {1, 2, 10, 64} (thorough: also 3, 45, 120), single-packet firewall flags after three "
+    "patterns (all allowed, all denied, alternating); all segments of one superpacket share the firewall's answer (they share the "
+    "5-tuple); the handshake is completed by a real responder machine through continueHandshake; no concurrency between the "
+    "inside reader and the completion in this stage (that is the whole-node stage's prologue)",
+    "which packets stay when the bound is reached: the statement only bounds the number; HsManager.tla (TunSend and TunSendBurst) "
+    "keeps the packets already queued and drops the newcomer, as the code does; another drop policy would be reported under "
+    "burst:queue-content",
 ]
 
 
@@ -23,6 +33,50 @@ def run(ctx):
     res, tf = _hs.record(ctx)
     ctx.traces += _hs.validate(ctx, tf, relevant, strict_backoff=True)
     ctx.require_actions('ev:Deliver', 'ev:TunSend', 'ev:Retry', 'flush-interleave-prologue')
+    burst(ctx)
+
+
+def burst(ctx):
+    """Additional stage: tun reads that are TSO/USO superpackets (HsManager.tla TunSendBurst), bound at object level to
+    consumeInsidePacket / cachePacket / continueHandshake (harness/_root/zz_verif_c32_burst_test.go)."""
+    import os, json
+    from tools.check import MachineryError
+    before = len(ctx.violations)
+    # MC: the system of MC_HsManager with superpacket reads (SpecBurst) keeps the queue bound and the structural invariants
+    if not os.environ.get('VERIF_SKIP_MC'):
+        cfg = open(os.path.join(ctx.spec_dir(), 'MC_HsManager_burst.cfg')).read()
+        if not ctx.quick:
+            cfg = cfg.replace('MaxClock = 0', 'MaxClock = 1')
+        ctx.tlc('MC_HsManager', 'MC_HsManager_burst_run.cfg', cfgtext=cfg, timeout=1500)
+    # V: fill level x burst size x firewall flags with the code's bound (MaxQueue = 100); TLC checks the link to the statement
+    # (RefQueue / Allowed) on every state; a vector is a state with pc = "done"
+    cfg = open(os.path.join(ctx.spec_dir(), 'Vec_HsBurst.cfg')).read()
+    if not ctx.quick:
+        cfg = cfg.replace('Thorough = FALSE', 'Thorough = TRUE')
+    maxq = int(cfg.split('MaxQueue =')[1].split()[0])
+    ctx.tlc_vectors('Vec_HsBurst', 'Vec_HsBurst_run.cfg', out='burst_states.ndjson', cfgtext=cfg, timeout=900, sample=1)
+    n = 0
+    with open(os.path.join(ctx.scratch, 'burst_states.ndjson')) as f, open(os.path.join(ctx.scratch, 'burst_vectors.ndjson'), 'w') as g:
+        for ln in f:
+            st = json.loads(ln)
+            if st.get('pc') != 'done':
+                continue
+            i = st['in']
+            g.write(json.dumps({'pat': i['pat'], 'fill': i['fill'], 'k': i['k'], 'ok': i['ok'], 'q': st['q'],
+                                'released': len(st['out']), 'maxqueue': maxq}, separators=(',', ':')) + '\n')
+            n += 1
+    os.remove(os.path.join(ctx.scratch, 'burst_states.ndjson'))
+    if n == 0:
+        raise MachineryError('Vec_HsBurst produced no vectors')
+    ctx.extra['burst_vectors'] = n
+    res = ctx.gotest('.', 'TestVerif_C32Burst', timeout=900)
+    ctx.take_mismatches(res)
+    ctx.traces += res.get('evaluations', 0)
+    if len(ctx.violations) == before:
+        ctx.require_actions('burst', 'burst:plain', 'burst:tso', 'burst:uso', 'burst:room', 'burst:crossing', 'burst:full',
+                            'burst:k1', 'burst:k2', 'burst:k10', 'burst:k64', 'burst:firewall-allows-burst',
+                            'burst:firewall-denies-burst', 'burst:completed', 'burst:released',
+                            'burst:release-filtered-by-firewall')
 
 
 META = {
@@ -31,7 +85,11 @@ META = {
                  'complete nodes under virtual time validated step by step by TLC with the back-off invariant',
     'text': 'The specification carries the pending table (attempt counter, queue, own back-off deadline) and the timer entries keyed '
             'by address as the code has them; TLC validates every recorded retransmission, give-up, queue change and release on '
-            'completion of real nodes against it and evaluates C32_NoEarlyRetry at every step.',
+            'completion of real nodes against it and evaluates C32_NoEarlyRetry at every step. Tun reads that are TSO/USO '
+            'superpackets are a separate action (TunSendBurst: the unit of the bound is the packet, not the read); TLC checks the '
+            'bound with it exhaustively and enumerates fill level x burst size x firewall flags with the real bound of 100, and '
+            'each vector is run on a real Interface / HandshakeManager / Firewall through consumeInsidePacket and a real handshake '
+            'completion (packet store and released datagrams compared by serial number).',
     'design_ref': '3.3 C32',
     'note': 'Known finding: a timer entry armed by an earlier handshake for the same address fires for the next pending handshake '
             '(known_findings.jsonl key retry:stale-timer-entry).',
